@@ -1,16 +1,14 @@
-/* C19: one row / the headings / the footer of one column set of src/list.c (-DCMD 0 l, 1 lv, 2 v, 3 vv) against
- * the reference renderer.
- *   WHICH 1 (row.*) : print_columns(set, header) for a symbolic header; -DPAT selects which of path / filename /
- *                     link target are present (bit 0 / 1 / 2)
- *   WHICH 2 (head.*): print_list_headings(set), print_list_separators(set)
- *   WHICH 3 (foot.*): print_footers(set, stats) for arbitrary totals */
+/* C19: headings and separator lines of one column set of src/list.c (-DCMD 0 l, 1 lv, 2 v, 3 vv) against the
+ * reference renderer (head.*): print_list_headings(set), print_list_separators(set), byte for byte.
+ * (WHICH 1 / 3 - a whole row / footer with every field symbolic - do not finish under CBMC: token positions become
+ * symbolic after the first variable-length field; rows and footers are covered by col.* + comp.* + e2e.* instead.) */
 #include "C18/sym_header.h"
 #include "C19/c19_env.h"
 #ifndef CMD
 #define CMD 0
 #endif
 #ifndef WHICH
-#define WHICH 1
+#define WHICH 2
 #endif
 #ifndef PAT
 #define PAT 3
